@@ -327,7 +327,7 @@ def operand_for(rng, r):
 
 # ---------------- policies / inquiries / scenarios ----------------
 
-EFFECTS = ['allow'] * 12 + ['deny'] * 4 + ['ALLOW', None, '', 0, 'Allow ', 'allow\n', 1, True]
+EFFECTS = ['allow'] * 12 + ['deny'] * 4 + ['ALLOW', None, '', 0, 'Allow ', 'allow\n', 1, True, 'a', 'all', 'low', 'allo', 'llo']
 LIT_ALPHA = 'ab:/.+$ xée\u0301'     # e + U+0301: decomposed text must stay as written
 
 
@@ -336,8 +336,11 @@ def str_element(rng, tags=('<', '>'), max_segs=2, unbalanced=True):
     st, en = tags
     r = rng.random()
     if unbalanced and r < 0.06:
-        e = rng.choice([st + 'a', 'a' + en, st + st + 'a' + en, 'a' + en + st, st, en, en + st])
-        return e, [], None
+        e = rng.choice([st + 'a', 'a' + en, st + st + 'a' + en, 'a' + en + st, st, en, en + st,
+                        en + 'a' + st, 'a' + en + 'b' + st, en + 'get' + st, en + en + 'a' + st + st,
+                        en + 'a' + st + st + 'a' + en])
+        # the value aimed at it is its own text: what a scanner that lets the element through would match literally
+        return e, [], (e if rng.random() < 0.7 else None)
     nseg = rng.choice([0, 0, 0, 1, 1, 2][:3 + 3 * (max_segs > 0)] if max_segs < 2 else [0, 0, 0, 1, 1, 1, 2, 2, 3])
     nseg = min(nseg, max_segs)
     text, table, sample = '', [], ''
